@@ -18,6 +18,12 @@ fn u2f_registered(ctx: &mut Ctx) {
 
 pub fn gen(ctx: &mut Ctx) {
     u2f_registered(ctx);
+    boundary(ctx);
+    rest(ctx);
+}
+
+/// the counter boundary (also run against a build with overflow checks and debug assertions)
+pub fn boundary(ctx: &mut Ctx) {
     // ---- corpus first: the boundary that overflowed before the repair (fixed: C08)
     for kind in [Kind::RefFull, Kind::Map, Kind::Slot] {
         for start in [u32::MAX - 2, u32::MAX - 1, u32::MAX] {
@@ -29,6 +35,9 @@ pub fn gen(ctx: &mut Ctx) {
             ctx.stat("c08.boundary");
         }
     }
+}
+
+fn rest(ctx: &mut Ctx) {
     let starts: [Option<u32>; 7] = [None, Some(0), Some(1), Some(1 << 31), Some(u32::MAX - 1), Some(u32::MAX), Some(12345)];
     let n = if ctx.thorough { 1500 } else { 150 };
     for i in 0..n {
@@ -53,6 +62,8 @@ pub fn gen(ctx: &mut Ctx) {
             } else {
                 let mut g = simple_get(ctx, "example.com");
                 g.allow = Some(vec![ctx.rng.pick(&ids).clone()]);
+                // ... or several of the stored credentials: only the one that signs moves
+                if ctx.rng.below(4) == 0 { g.allow = Some(ids.clone()); ctx.stat("c08.allow_list_names_all"); }
                 // every successful assertion counts, also one made without a presence test or without verification
                 match ctx.rng.below(6) { 0 => { g.up = false; ctx.stat("c08.assertion_without_presence_test"); } 1 => { g.uv = false; } 2 => { g.up = false; g.uv = false; } _ => {} }
                 if hm == Hm::NoUv && ctx.rng.bool() {
